@@ -2,6 +2,7 @@ package schd
 
 import (
 	"fmt"
+	"github.com/ipfs/go-cid"
 	"sort"
 
 	ipfslog "berty.tech/go-ipfs-log"
@@ -45,94 +46,110 @@ func c15Scenarios(tier string) []Spec {
 		}, nil},
 	}
 	var specs []Spec
-	for _, k := range kinds {
-		k := k
-		threads := 2
-		if k.third != nil {
-			threads = 3
-		}
-		bound, rb := b, 1
-		if threads == 3 || k.name == "merges" {
-			// the free switches alone (a polling thread is never "running") are 1-7k executions each; one preemption
-			// on top of them in the thorough tier
-			bound, rb = 0, 0
-			if tier == "thorough" {
-				bound, rb = 1, 1
+	for _, upper := range []string{"default", "lt-head", "lte-second"} {
+		upper := upper
+		for _, k := range kinds {
+			k := k
+			if upper != "default" && k.name != "appends" && k.name != "idle" {
+				continue // the bounded iterations with the two cheapest consumers
 			}
-		}
-		specs = append(specs, Spec{Bound: bound, RaceBound: rb, Shards: 2, Sc: sched.Scenario{Name: "C15/iterator(channel of 1)|consumer " + k.name, Make: func() *sched.Instance {
-			w := newW13Sized(threads, true) // A = a1; B = b1
-			mustAppend(w.a, "a2")
-			mustAppend(w.a, "a3")
-			mustAppend(w.b, "b2")
-			initial := setOfEntries(w.a.Values().Slice())
-			ch := make(chan iface.IPFSLogEntry, 1)
-			var iterErr error
-			returned := false
-			var got []iface.IPFSLogEntry
-			closed := false
-			bodies := []func(){
-				func() { iterErr = w.a.Iterator(&ipfslog.IteratorOptions{}, ch); returned = true },
-				func() {
-					for {
-						e, ok := zvsync.Recv(ch)
-						if !ok {
-							closed = true
-							return
-						}
-						got = append(got, e)
-						k.between(w, 1, len(got))
-					}
-				},
-			}
+			threads := 2
 			if k.third != nil {
-				bodies = append(bodies, k.third(w))
+				threads = 3
 			}
-			return &sched.Instance{Bodies: bodies, Check: func(res *zvsync.Result) (string, []sched.Finding) {
-				var fs []sched.Finding
-				if res.Deadlock {
-					return "deadlock", nil // reported by the explorer with the blocked operations
+			bound, rb := b, 1
+			if threads == 3 || k.name == "merges" {
+				// the free switches alone (a polling thread is never "running") are 1-7k executions each; one preemption
+				// on top of them in the thorough tier
+				bound, rb = 0, 0
+				if tier == "thorough" {
+					bound, rb = 1, 1
 				}
-				if !returned {
-					fs = append(fs, sched.Finding{Key: "iterator-did-not-return", What: "Iterator did not return"})
-				} else if iterErr != nil {
-					fs = append(fs, sched.Finding{Key: "iterator-error", What: "Iterator failed: " + iterErr.Error()})
-				} else if !closed {
-					fs = append(fs, sched.Finding{Key: "channel-not-closed", What: "Iterator returned nil but the output channel was not closed"})
+			}
+			specs = append(specs, Spec{Bound: bound, RaceBound: rb, Shards: 2, Sc: sched.Scenario{Name: "C15/iterator(" + upper + ", channel of 1)|consumer " + k.name, Make: func() *sched.Instance {
+				w := newW13Sized(threads, true) // A = a1; B = b1
+				mustAppend(w.a, "a2")
+				mustAppend(w.a, "a3")
+				mustAppend(w.b, "b2")
+				vals0 := w.a.Values().Slice()
+				opts := &ipfslog.IteratorOptions{}
+				initial := setOfEntries(vals0)
+				switch upper {
+				case "lt-head": // everything below the head
+					opts.LT = []cid.Cid{vals0[len(vals0)-1].GetHash()}
+					initial = setOfEntries(vals0[:len(vals0)-1])
+				case "lte-second": // the second entry and what is below it
+					opts.LTE = []cid.Cid{vals0[1].GetHash()}
+					initial = setOfEntries(vals0[:2])
 				}
-				seen := map[string]bool{}
-				for i, e := range got {
-					h := e.GetHash().String()
-					if seen[h] {
-						fs = append(fs, sched.Finding{Key: "duplicates", What: fmt.Sprintf("entry %s emitted twice", string(e.GetPayload()))})
+				ch := make(chan iface.IPFSLogEntry, 1)
+				var iterErr error
+				returned := false
+				var got []iface.IPFSLogEntry
+				closed := false
+				bodies := []func(){
+					func() { iterErr = w.a.Iterator(opts, ch); returned = true },
+					func() {
+						for {
+							e, ok := zvsync.Recv(ch)
+							if !ok {
+								closed = true
+								return
+							}
+							got = append(got, e)
+							k.between(w, 1, len(got))
+						}
+					},
+				}
+				if k.third != nil {
+					bodies = append(bodies, k.third(w))
+				}
+				return &sched.Instance{Bodies: bodies, Check: func(res *zvsync.Result) (string, []sched.Finding) {
+					var fs []sched.Finding
+					if res.Deadlock {
+						return "deadlock", nil // reported by the explorer with the blocked operations
 					}
-					seen[h] = true
-					if i > 0 && e.GetClock().GetTime() > got[i-1].GetClock().GetTime() {
-						fs = append(fs, sched.Finding{Key: "not-newest-first", What: fmt.Sprintf("emitted %v", payloads(got))})
+					if !returned {
+						fs = append(fs, sched.Finding{Key: "iterator-did-not-return", What: "Iterator did not return"})
+					} else if iterErr != nil {
+						fs = append(fs, sched.Finding{Key: "iterator-error", What: "Iterator failed: " + iterErr.Error()})
+					} else if !closed {
+						fs = append(fs, sched.Finding{Key: "channel-not-closed", What: "Iterator returned nil but the output channel was not closed"})
 					}
-				}
-				if iterErr == nil && closed {
-					for h := range initial {
-						if !seen[h] {
-							fs = append(fs, sched.Finding{Key: "entry-missing", What: fmt.Sprintf("emitted %v: an entry the log held when Iterator was called is missing", payloads(got))})
-							break
+					seen := map[string]bool{}
+					for i, e := range got {
+						h := e.GetHash().String()
+						if seen[h] {
+							fs = append(fs, sched.Finding{Key: "duplicates", What: fmt.Sprintf("entry %s emitted twice", string(e.GetPayload()))})
+						}
+						seen[h] = true
+						if i > 0 && e.GetClock().GetTime() > got[i-1].GetClock().GetTime() {
+							fs = append(fs, sched.Finding{Key: "not-newest-first", What: fmt.Sprintf("emitted %v", payloads(got))})
 						}
 					}
-					for _, e := range got {
-						for _, n := range e.GetNext() {
-							if _, held := w.a.Get(n); held && !seen[n.String()] {
-								fs = append(fs, sched.Finding{Key: "not-closed-under-predecessors", What: fmt.Sprintf("emitted %v: a predecessor of %s that the log holds is missing", payloads(got), string(e.GetPayload()))})
+					if iterErr == nil && closed {
+						for h := range initial {
+							if !seen[h] {
+								fs = append(fs, sched.Finding{Key: "entry-missing", What: fmt.Sprintf("emitted %v: an entry the log held when Iterator was called is missing", payloads(got))})
+								break
+							}
+						}
+						for _, e := range got {
+							for _, n := range e.GetNext() {
+								if _, held := w.a.Get(n); held && !seen[n.String()] {
+									fs = append(fs, sched.Finding{Key: "not-closed-under-predecessors", What: fmt.Sprintf("emitted %v: a predecessor of %s that the log holds is missing", payloads(got), string(e.GetPayload()))})
+								}
 							}
 						}
 					}
-				}
-				out, ffs := w.finalCheck(w.a, "A", false)
-				fs = append(fs, ffs...)
-				ps := payloads(got)
-				sort.Strings(ps)
-				return fmt.Sprintf("emitted=%v %s", ps, out), fs
-			}}
-		}}})
+					out, ffs := w.finalCheck(w.a, "A", false)
+					fs = append(fs, ffs...)
+					ps := payloads(got)
+					sort.Strings(ps)
+					return fmt.Sprintf("emitted=%v %s", ps, out), fs
+				}}
+			}}})
+		}
 	}
 	return specs
 }
